@@ -53,7 +53,7 @@ ASSUMPTIONS = [
     "the 'accumulating default' variant follows Python semantics: a mutable default object belongs to the wrapper "
     "that holds it; deep copies (deepcopy, partial evaluation) own independent copies; no re-wrapping in that variant",
     "DomainUserFunction results are compared with value[:, None] (documented extra axis)",
-    "mappings are dict, OrderedDict and MappingProxyType; the per-row mode (vectorize=True) is not exercised",
+    "mappings are dict, OrderedDict and MappingProxyType; the per-row mode (vectorize=True) is exercised by its own workload (tensor-valued defaults of a length other than the batch size, as its docstring assumes)",
 ]
 CASE_TIMEOUT = 60
 
@@ -92,7 +92,87 @@ def gen_cases(seed, tier):
         use = rng_f.random() < (0.5 if ndef >= 1 else 0.08)
         if use and construct == "plain" and variant == "pure":
             cases[-1]["family"], cases[-1]["fam_n"] = fam, fam_n
+    # the per-row mode of __call__ (vectorize=True): one invocation per batch row, still bound by name
+    rng_r = np.random.default_rng([seed, 13, 2])
+    for i in range(40 if tier == "quick" else 2000):
+        npar = int(rng_r.integers(2, 6))
+        cases.append({"rowwise": True, "names": [str(x) for x in rng_r.choice(PNAMES, size=npar, replace=False)],
+                      "ndef": int(rng_r.integers(1, npar)), "set_default": bool(rng_r.random() < 0.4),
+                      "partial": bool(rng_r.random() < 0.3), "points": bool(rng_r.random() < 0.4), "seed": int(rng_r.integers(0, 2**31))})
     return cases
+
+
+def run_rowwise(case):
+    from torchphysics.utils.user_fun import UserFunction
+    from torchphysics.problem.spaces import Points
+    rng = np.random.default_rng(case["seed"])
+    names, ndef = case["names"], case["ndef"]
+    B = 5
+    res = {"cls": "rowwise/p%d/d%d/%s%s%s" % (len(names), ndef, "s" if case["set_default"] else "-", "p" if case["partial"] else "-",
+                                              "P" if case["points"] else "D"),
+           "judged": 0, "nontrivial": False, "viol": [], "counters": {}, "trace": [], "signature": ""}
+    mech = {"op": "call(vectorize=True)", "cls": "User", "npar": len(names), "ndef": ndef}
+    tag = [0]
+
+    def tens(shape):
+        tag[0] += 1
+        n_ = int(np.prod(shape))
+        return torch.tensor((tag[0] * 64 + np.arange(n_)) / 4.0, dtype=torch.float64).reshape(shape)
+    # declared defaults: tensors of length 2 (never the batch size), one per trailing parameter
+    declared = {n: tens((2,)) for n in names[len(names) - ndef:]}
+    log = []
+    ns = {"hook": lambda rec: (log.append({k: v.clone() for k, v in rec.items()}) or sum(float(v.sum()) for v in rec.values())), "DEF": declared}
+    sig = ", ".join(n if n not in declared else "%s=DEF[%r]" % (n, n) for n in names)
+    exec("def f(%s):\n    return hook(dict(%s))" % (sig, ", ".join("%s=%s" % (n, n) for n in names)), ns)
+    res["signature"] = "f(%s)" % sig
+    w = UserFunction(ns["f"])
+    defaults = dict(declared)
+    required = [n for n in names if n not in declared]
+    try:
+        if case["set_default"] and len(required) >= 2:
+            n0 = required[int(rng.integers(0, len(required) - 1))]           # not the last required one: a supplied name follows
+            defaults[n0] = tens((2,))
+            w.set_default(**{n0: defaults[n0]})
+            required.remove(n0)
+        if case["partial"] and len(required) >= 2:
+            n0 = required[0]
+            defaults[n0] = tens((2,))
+            w = w.partially_evaluate(**{n0: defaults[n0]})
+            required.remove(n0)
+        optional = [n for n in names if n in defaults]
+        # supply all required names and the LATER optional ones (an absent default precedes a supplied name)
+        supplied = list(required) + [n for j, n in enumerate(optional) if j >= 1 and rng.random() < 0.7]
+        env = {n: tens((B, int(rng.integers(1, 3)))) for n in rng.permutation(supplied)}
+        arg = Points.from_coordinates({k: v.clone() for k, v in env.items()}) if case["points"] and env else dict(env)
+        out = w(arg, vectorize=True)
+    except Exception as e:
+        res["viol"].append(viol("exception", "row-wise call of %s with names %s raised %s: %s (at %s)" % (res["signature"], list(env) if "env" in dir() else "?",
+                                type(e).__name__, str(e)[:150], exc_site(e)), exc=type(e).__name__, site=exc_site(e), **mech))
+        return res
+    res["counters"]["rowwise_calls"] = 1
+    res["judged"] += 1
+    if len(log) != B or not isinstance(out, list) or len(out) != B:
+        res["viol"].append(viol("call_count", "row-wise call over %d rows invoked the function %d times and returned %s" %
+                                (B, len(log), type(out).__name__ if not isinstance(out, list) else "a list of %d" % len(out)), **mech))
+        return res
+    for i, rec in enumerate(log):
+        if sorted(rec) != sorted(names):
+            res["viol"].append(viol("wrong_parameters", "row %d: the function received %s, declared %s" % (i, sorted(rec), names), **mech))
+            return res
+        for n in names:
+            want = env[n][i] if n in env else defaults[n]
+            res["judged"] += 1
+            if rec[n].shape != want.shape or not torch.equal(rec[n], want):
+                src = [m for m in names if m != n and ((m in env and env[m][i].shape == rec[n].shape and torch.equal(env[m][i], rec[n])) or
+                                                       (m in defaults and defaults[m].shape == rec[n].shape and torch.equal(defaults[m], rec[n])))]
+                res["viol"].append(viol("wrong_binding", "row %d of the row-wise call of %s (given %s): parameter %r received %s, expected %s%s" %
+                                        (i, res["signature"], list(env), n, rec[n].tolist(), want.tolist(),
+                                         "; that is the value stored under %r" % src[0] if src else ""), given=n in env, has_default=n in defaults,
+                                        **mech))
+                return res
+    res["counters"]["rowwise_rows_judged"] = B
+    res["nontrivial"] = True
+    return res
 
 
 # ---------------------------------------------------------------------------------------------
@@ -949,6 +1029,8 @@ def mutate_snap(s):
 
 def run_case(case):
     torch.manual_seed(case["seed"])
+    if case.get("rowwise"):
+        return run_rowwise(case)
     m = Monitor(case)
     m.run()
     kinds = "".join(sorted({k[0] + k[-1] for k in case["kinds"]}))
